@@ -175,6 +175,20 @@ func FitsCount(buf []byte, minSize int) bool {
 	return k > 0 && n <= uint64(len(buf)-k)/uint64(minSize)
 }
 
+// FitsFields reports whether buf starts with n length-prefixed fields whose declared
+// lengths fit the bytes that follow them, and returns what comes after those fields.
+func FitsFields(buf []byte, n uint64) ([]byte, bool) {
+	for ; n > 0; n-- {
+		if !FitsCount(buf, 1) {
+			return nil, false
+		}
+
+		l, k := encoding.Uvarint(buf)
+		buf = buf[k+int(l):]
+	}
+	return buf, true
+}
+
 // DecodeFrame decodes the message frame from the decoder.
 func DecodeFrame(buf []byte) (out Frame, err error) {
 
